@@ -28,6 +28,7 @@ pub mod dtlslive;
 pub mod srtp;
 pub mod sctpassoc;
 pub mod sharedudp;
+pub mod rtprecv;
 
 // ---------------------------------------------------------------------------------------------
 // counting allocator
@@ -67,6 +68,16 @@ pub fn last_alloc_used() -> u64 { LAST_USED.with(|b| b.get()) }
 pub fn alloc_reset() { BYTES.with(|b| b.set(0)); FREED.with(|b| b.set(0)); }
 pub fn alloc_read() -> u64 { BYTES.with(|b| b.get()) }
 /// bytes allocated minus bytes freed on this thread since the last `alloc_reset` (what a call sequence retains)
+/// implementation-side allocation oracle for COMPARED streams whose model stops early (no `A=` tie possible): the allocator traffic of
+/// the `exec` call that just returned must stay ≤ 2·(a·len + b) + slack
+pub fn alloc_side_check(run: &mut Run, stream: &str, entry: &str, input: &str, len: usize, a: u64, b: u64) {
+    let used = last_alloc_used();
+    let lim = 2 * (a * len as u64 + b) + ALLOC_SLACK;
+    let e = run.dist.entry(format!("alloc_max_ratio_x100:{stream}")).or_insert(0);
+    let ratio = used * 100 / (a * len as u64 + b).max(1);
+    if ratio > *e { *e = ratio; }
+    if used > lim { run.fail(&format!("alloc:{entry}"), &format!("{stream} {input}"), &format!("allocated {used} bytes for {len} input bytes (limit {lim})")); }
+}
 pub fn alloc_retained() -> i64 { BYTES.with(|b| b.get()) as i64 - FREED.with(|b| b.get()) as i64 }
 
 // ---------------------------------------------------------------------------------------------
@@ -124,6 +135,25 @@ pub fn install_panic_counter() {
     });
 }
 pub fn panic_count() -> u64 { PANICS.load(std::sync::atomic::Ordering::SeqCst) }
+/// panics already attributed to a case (reported as an oracle failure, or caught and handled by harness code)
+static SEEN: std::sync::atomic::AtomicU64 = std::sync::atomic::AtomicU64::new(0);
+/// A panic that happened in the process since the last accounted one and was attributed to nothing — a task that died while
+/// the harness was waiting between two calls (`Session::step`, warm-ups, fixture construction) — becomes a failure of its own.
+pub fn check_panics_between(run: &mut Run, next_case: &str) {
+    let (c, seen) = (panic_count(), SEEN.load(std::sync::atomic::Ordering::SeqCst));
+    if c > seen {
+        let msg = LAST_PANIC.lock().clone();
+        run.fail(&format!("panic:(task, between calls):{}", panic_site(&msg)), next_case, &format!("{} panic(s) in the process before this case that no call observed; last: {msg}", c - seen));
+        SEEN.store(c, std::sync::atomic::Ordering::SeqCst);
+    }
+}
+/// `crate::catch` for harness code that handles the panic itself (records it, or a generator whose failure another stream reports)
+pub fn catch_ack<T>(f: impl FnOnce() -> T + std::panic::UnwindSafe) -> Result<T, String> {
+    install_panic_counter();
+    let r = crate::catch(f);
+    if r.is_err() { SEEN.fetch_add(1, std::sync::atomic::Ordering::SeqCst); }
+    r
+}
 
 /// strip the absolute prefix of a panic location so signatures are stable: `…/src/rtp.rs:231` → `src/rtp.rs:231`
 pub fn panic_site(msg: &str) -> String {
@@ -138,6 +168,7 @@ pub fn exec<F: FnOnce() -> String + std::panic::UnwindSafe>(
 ) -> String {
     let case = format!("{stream} {input}");
     install_panic_counter();
+    check_panics_between(run, &case);
     let panics0 = panic_count();
     *WATCH.lock() = Some((entry.to_string(), case.clone(), Instant::now()));
     alloc_reset();
@@ -162,6 +193,7 @@ pub fn exec<F: FnOnce() -> String + std::panic::UnwindSafe>(
             "panic".to_string()
         }
     };
+    SEEN.store(panic_count(), std::sync::atomic::Ordering::SeqCst);          // every panic during this call has been reported above
     if dt > SLOW_LIMIT { run.fail(&format!("hang:{entry}"), &case, &format!("call took {dt:?}")); }
     if let Some((a, b, len)) = bound {
         let lim = 2 * (a * len + b) + ALLOC_SLACK;
@@ -315,6 +347,7 @@ fn replay(case: &str) {
     if !done { done = srtp::replay_special(&mut run, stream, &args); }
     if !done { done = sctpassoc::replay_special(&mut run, stream, &args); }
     if !done { done = sharedudp::replay_special(&mut run, stream, &args); }
+    if !done { done = rtprecv::replay_special(&mut run, stream, &args); }
     if !done { println!("unknown stream {stream}"); }
     else if args.len() != 1 || !all_targets().iter().any(|t| t.stream == stream) {
         use std::io::Write;
@@ -332,6 +365,7 @@ pub fn run(args: &Args) {
     unsafe { std::env::set_var("RUST_BACKTRACE", "0"); std::env::set_var("RUST_LIB_BACKTRACE", "0"); }
     if let Some(c) = &args.replay { replay(c); return; }
     let mut run = Run::new("c07", &args.out);
+    install_panic_counter();
     start_watchdog(&args.out);
     let mut rng = Rng::new(args.seed);
     let targets = all_targets();
@@ -349,6 +383,8 @@ pub fn run(args: &Args) {
     srtp::special(&mut run, &mut rng.fork(), args.tier_thorough);
     sctpassoc::special(&mut run, &mut rng.fork(), args.tier_thorough);
     sharedudp::special(&mut run, &mut rng.fork(), args.tier_thorough);
+    rtprecv::special(&mut run, &mut rng.fork(), args.tier_thorough);
+    check_panics_between(&mut run, "end-of-run");
     run.notes.insert("targets".into(), serde_json::json!(targets.iter().map(|t| t.stream).collect::<Vec<_>>()));
     run.notes.insert("type_sizes".into(), rtp::type_sizes());
     run.notes.insert("type_sizes_media".into(), media::type_sizes());
